@@ -14,6 +14,7 @@ Oracle   outcome is either UBXMessageError / UBXTypeError, or a message whose
 """
 
 import math
+import os
 import struct
 
 from hypothesis import strategies as st
@@ -43,14 +44,16 @@ UNSET = object()
 
 def floors(tier):
     return {"kind=int": 500, "kind=scaled": 300, "kind=flag": 200, "kind=bytes": 50, "kind=float": 50,
-            "kind=count": 50, "kind=disc": 30, "refused": 1500, "accepted": 500, "outside": 2000}
+            "kind=count": 50, "kind=disc": 30, "refused": 1500, "accepted": 500, "outside": 2000,
+            "python -O": 3000}
 
 
 def plan(tier, seed):
     targets = C.cat()[0]
     idx = [i for i, t in enumerate(targets)
            if not G.audit_fatal(t.defn) and c16.kw_constructible(t) and not c03.has_hp(t.defn)]
-    return [{"targets": p} for p in C.split_round_robin(idx, 24)]
+    return [{"what": "optimised", "part": i, "of": 12} for i in range(12)] + [
+        {"targets": p} for p in C.split_round_robin(idx, 24)]
 
 
 # --------------------------------------------------------------- hostile values
@@ -90,7 +93,21 @@ def hostile_values(width_bytes):
     looks = st.sampled_from(["12", b"12", " 7 ", b" 7 ", "1e3", b"1e3", "inf", b"inf", "nan", b"nan", "-0", b"-0.0",
                              "0x10", "1_000", b"1_0", bytearray(b"42"), bytearray(b"298"), b"298", "\u0663", "\u00bd",
                              "+5", b"+5", "1.", b".5", "1e400", b"1e-400", "Infinity", b"-Infinity", "0b1", "١٢"])
-    return st.one_of(ints, floats, seqs, other, looks)
+    # buffer objects: a plain byte view of the right / wrong size, views whose items are
+    # wider than a byte or that have two dimensions (len() counts items, not bytes)
+    import array
+
+    def mkview(i):
+        return [
+            lambda: memoryview(bytes(range(1, n + 1))), lambda: memoryview(bytes(n + 1)), lambda: memoryview(b""),
+            lambda: memoryview(array.array("H", [0x0201] * n)),
+            lambda: memoryview(array.array("H", [0x0201] * max(1, n // 2))),
+            lambda: memoryview(array.array("I", [0x04030201] * n)),
+            lambda: memoryview(bytes(2 * n)).cast("B", [n, 2]), lambda: memoryview(bytes(2 * n)).cast("B", [2, n]),
+            lambda: bytearray(range(1, n + 1)), lambda: bytearray(n + 1)][i]()
+
+    views = st.integers(0, 9).map(mkview)
+    return st.one_of(ints, floats, seqs, other, looks, views)
 
 
 def sequence_fields(defn):
@@ -143,6 +160,8 @@ def value_kind(v, size=None):
         return "list"
     if v is None:
         return "none"
+    if isinstance(v, memoryview):
+        return "view" if v.ndim == 1 and v.itemsize == 1 else "view-wide-items"
     return "container"
 
 
@@ -184,6 +203,10 @@ def _fits(kind, nd, fl, val):
         w = codec.tsize(fl[1])
         ok = isinstance(val, int) and 0 <= val < (1 << w)
         return ok
+    if isinstance(val, memoryview):
+        # a view stands for the bytes it covers
+        size = codec.tsize(nd[2]) if (kind == "bits" or nd[2][0] in "XC") else None
+        return size is not None and kind != "flag" and val.contiguous and val.nbytes == size
     if kind == "bits":
         return isinstance(val, (bytes, bytearray)) and len(val) == codec.tsize(nd[2])
     t, scale = nd[2], nd[3]
@@ -218,6 +241,8 @@ def _fits(kind, nd, fl, val):
 def holds_value(kind, nd, fl, got_raw, val):
     """Does the decoded field hold the supplied value?"""
     try:
+        if isinstance(val, memoryview):
+            return kind != "flag" and (kind == "bits" or nd[2][0] in "XC") and bytes(got_raw) == val.tobytes()
         if kind == "flag":
             return isinstance(val, int) and got_raw == val
         if kind == "bits":
@@ -314,8 +339,26 @@ def base_raws(nodes, bf):
     return out
 
 
+def _child_env():
+    import sys
+
+    return dict(os.environ, PYTHONPATH=os.pathsep.join(
+        [os.path.dirname(os.path.dirname(os.path.dirname(os.path.abspath(__file__))))] + [p for p in sys.path if p]))
+
+
 def check(case) -> core.Out:
     import pyubx2
+
+    if case.get("kind") == "optimised":
+        # judged in a child interpreter started with -O (see c15_opt)
+        import json
+        import subprocess
+        import sys
+
+        r = subprocess.run([sys.executable, "-O", "-m", "vp.props.c15_opt", "--case", json.dumps(core.jenc(case))],
+                           capture_output=True, text=True, env=_child_env(), timeout=600)
+        res = json.loads(r.stdout.strip().splitlines()[-1])
+        return core.Out(viol=[tuple(v) for v in res["viol"]], classes=["python -O"])
 
     mode, clsid, defname, bf, nodes = (case["mode"], bytes(case["clsid"]), case["defname"],
                                        case["bf"], case["nodes"])
@@ -455,7 +498,37 @@ def check(case) -> core.Out:
     return out
 
 
+def run_optimised(spec, ctx, acc):
+    """The range checks must not live in assert statements: the same oracle in a
+    child interpreter started with -O (see c15_opt)."""
+    import json
+    import subprocess
+    import sys
+
+    known = set(ctx["known"])
+    env = _child_env()
+    r = subprocess.run([sys.executable, "-O", "-m", "vp.props.c15_opt", str(spec["part"]), str(spec["of"])],
+                       capture_output=True, text=True, env=env, timeout=3000)
+    try:
+        res = json.loads(r.stdout.strip().splitlines()[-1])
+    except Exception:  # noqa
+        acc.errors.append(f"optimised-interpreter run failed: rc={r.returncode} {r.stderr[-400:]}")
+        return
+    if not res.get("optimised"):
+        acc.errors.append("optimised-interpreter run was not optimised")
+    acc.evaluations += res["n"]
+    acc.nontrivial_extra += res["nt"]
+    acc.classes["python -O"] += res["n"]
+    for k, d, case in res["viol"]:
+        if k in known:
+            acc.known_hits[k] += 1
+        elif not any(v["key"] == k for v in acc.violations):
+            acc.violations.append({"key": k, "case": case, "detail": d + " [interpreter started with -O]"})
+
+
 def run_shard(spec, ctx, acc):
+    if spec.get("what") == "optimised":
+        return run_optimised(spec, ctx, acc)
     targets = C.cat()[0]
     known = set(ctx["known"])
     n = 40 if ctx["tier"] == "quick" else 400
@@ -527,3 +600,28 @@ def run_shard(spec, ctx, acc):
             core.hyp_search(acc, st.tuples(inst, st.just(1)).flatmap(with_seq), check,
                             seed=core.derive(ctx["seed"], PROP, "seq", t.label),
                             max_examples=n, known=known, rounds=4)
+            # the critical sequence values for each such attribute, deterministically
+            from vp.props import c16
+
+            nom = c16.nominal_nodes(t)
+            for name, _sp in G.expect(nom, 1):
+                if C.base_name(name) not in seqnames:
+                    continue
+                fld = find_field(nom, name, 1)
+                if fld is None or fld[0] == "flag" or fld[1][2] == "CH":
+                    continue
+                w = codec.tsize(fld[1][2])
+                crit = [
+                    "\udc80" * w, "\udcff" + "a" * (w - 1), "a" * (w - 1) + "\udc80", "\ud800" * w, "\udc00" + "a" * (w - 1),
+                    "\u00e9" * w, "\u00e9" * (w // 2) + "a" * (w - 2 * (w // 2)), "\u20ac" * (w // 3) + "a" * (w % 3),
+                    "a" * w, "a" * (w + 1), "a" * (w - 1) if w > 1 else "", "\x00" * w,
+                    bytes(w), bytes(w + 1), bytes(w - 1), bytearray(w), [0] * w, [0] * (w + 1), [0] * (w - 1),
+                    [0] * (w - 1) + [256], [0] * (w - 1) + [-1], [0] * (w - 1) + [0.5], [0] * (w - 1) + ["7"],
+                    [0] * (w - 1) + [None], [0] * (w - 1) + [True], [0] * (w - 1) + [b"\x01"], [255] * w,
+                    tuple([0] * w), memoryview(bytes(w)), memoryview(bytes(2 * w)).cast("H"),
+                ]
+                for v in crit:
+                    case = dict(base, bf=1, nodes=nom, hostile=[[name, v]])
+                    o = core.checked(check, case)
+                    o.classes = list(o.classes) + ["critical-sequence-value"]
+                    core.handle(acc, o, case, known)
